@@ -8,6 +8,7 @@ structure W where
   clients : List Cl
   events : List Ev
   tokens : List Path
+  welcomes : List (Nat × GState) := []     -- add-commit event number ↦ the state its welcome carries
   deriving Inhabited
 
 def toks (line : String) : List String := (line.trimAscii.toString.splitOn " ").filter (· ≠ "")
@@ -30,14 +31,16 @@ def recLt (a b : Nat × Rec) : Bool := a.1 < b.1
 
 def fp (w : W) (c : Cl) : W × String :=
   if !c.hasGroup then (w, "nogroup") else
-  let (w, t) := intern w c.g.path
+  -- an evicted member's MLS group has merged the commit but derives no new epoch secrets: the harness' state token (the
+  -- epoch authenticator) is still the parent state's
+  let (w, t) := intern w (if c.g.active then c.g.path else c.g.path.dropLast)
   let commaNat (l : List Nat) := joinWith "," ((sortBy (fun a b => decide (a < b)) l).map toString)
   let last := match c.g.last with | none => "-" | some (m, ts) => s!"{m}@{ts}"
   let msgs := joinWith "," ((sortBy rowBefore c.msgs).map (fun m => s!"{m.mid}:{m.author}:{stLetter m.state}:{m.epoch}:{m.wrapper}:{m.tok}"))
   let recs := joinWith "," ((sortBy recLt c.recs).map (fun p => s!"{p.1}:{recLetter p.2.state}:{optStr p.2.epoch}"))
   -- `I` is the model's number of the nostr group id (0 = the id chosen at creation, v+1 = `data nid v`); the
   -- harness numbers ids by first occurrence, the comparison renumbers both sides by first occurrence
-  (w, s!"E{c.g.recEpoch} T{t} M[{commaNat c.g.members}] A[{commaNat c.g.recAdmins}] N{c.g.recName} D{c.g.recDesc} I{c.g.recNid} R[{commaNat c.g.recRelays}] Sa PA[] PR[{commaNat c.g.props}] L{last} X[{msgs}] K[{recs}] Z{c.mgr.length}")
+  (w, s!"E{c.g.recEpoch} T{t} M[{commaNat c.g.members}] A[{commaNat c.g.recAdmins}] N{c.g.recName} D{c.g.recDesc} I{c.g.recNid} R[{commaNat c.g.recRelays}] S{if c.g.active then "a" else "i"} PA[] PR[{commaNat c.g.props}] L{last} X[{msgs}] K[{recs}] Z{c.mgr.length}")
 
 /-- `field value` pairs of a `data` line: name / desc tokens, `relays k` = relays 1..k, `admins` a csv of
     client numbers, `nid v` = the id the harness derives from v (model number v+1) -/
@@ -69,7 +72,27 @@ def exec (w : W) (t : List String) : W × String × Option Nat :=
   | ["setup", k, ret, pers, admins, name] =>
     let members := List.range (n k)
     let cls := members.map (fun i => initCl i ((csv pers).contains i) (n ret) members (csv admins) (n name))
-    ({ w with clients := cls, events := [], tokens := [] }, "ok", none)
+    ({ w with clients := cls, events := [], tokens := [], welcomes := [] }, "ok", none)
+  | ["setup", k, ret, pers, admins, name, mem] =>
+    -- k clients, of which `mem` are in the group from the start; the others hold no group until they `join`
+    let members := csv mem
+    let cls := (List.range (n k)).map (fun i =>
+      let c := initCl i ((csv pers).contains i) (n ret) members (csv admins) (n name)
+      if members.contains i then c else { c with hasGroup := false })
+    ({ w with clients := cls, events := [], tokens := [], welcomes := [] }, "ok", none)
+  | ["add", c, who, ev, ts, idnum] =>
+    match getCl w (n c) with
+    | none => (w, "bad-client", none)
+    | some cl =>
+      let (cl', r) := addMembers cl (n ev) (n ts) (n idnum) (csv who)
+      let w := match r with
+        | .ev e => { w with welcomes := w.welcomes ++ [(e.n, welcomeState cl.maxPast (ensureSecret cl.g) e)] }
+        | _ => w
+      (withRes w cl' r, resStr r, some (n c))
+  | ["join", j, ev] =>
+    match getCl w (n j), w.welcomes.find? (·.1 == n ev) with
+    | some cl, some (_, g) => (setCl w (join cl g), "ok", some (n j))
+    | _, _ => (w, "bad-ref", none)
   | ["send", c, ev, ts, idnum, mid, msgTs, tok] =>
     match getCl w (n c) with
     | none => (w, "bad-client", none)
@@ -89,7 +112,7 @@ def exec (w : W) (t : List String) : W × String × Option Nat :=
   | ["remove", c, j, ev, ts, idnum] =>
     match getCl w (n c) with
     | none => (w, "bad-client", none)
-    | some cl => let (cl', r) := stageCommit cl (n ev) (n ts) (n idnum) (.removeLeavers [n j]) true; (withRes w cl' r, resStr r, some (n c))
+    | some cl => let (cl', r) := removeMembers cl (n ev) (n ts) (n idnum) (csv j); (withRes w cl' r, resStr r, some (n c))
   | ["leave", c, ev, ts, idnum] =>
     match getCl w (n c) with
     | none => (w, "bad-client", none)
